@@ -209,6 +209,7 @@ class Contract:
     source_name: str = ""  # qualified name in the source when it differs from the contract's key (e.g. a property setter)
     decorator: str = ""  # pick the definition carrying this decorator (e.g. "logic_gate_tree.setter")
     external: bool = False  # trusted contract of a function that has no source in the repository: signature = `params` (in order) and `returns`
+    static: bool = False  # a @staticmethod: `obj.name(args)` does not pass obj
     is_property: bool = False  # a @property getter: `obj.name` in code and clauses denotes a call of this contract
 
 
@@ -1575,6 +1576,8 @@ class Engine:
                 return self.builtins[name](self, n, st)
             if name in self.tenv.records and name in self.ctor_handlers:
                 return self.ctor_handlers[name](self, n, st)
+            if name in self.tenv.records and name in getattr(self, "kw_ctor_records", ()):
+                return self.construct_by_fields(self.tenv.records[name], n, st)
             if name in self.tenv.records and f"{name}.__init__" in self.contracts:
                 return self.construct(self.tenv.records[name], n, st)
             if isinstance(self.tenv.aliases.get(name), StructTy):
@@ -1598,9 +1601,39 @@ class Engine:
             if isinstance(obj.ty, RecTy):
                 q = f"{obj.ty.name}.{f.attr}"
                 if q in self.contracts:
-                    return self.call_contract(self.contracts[q], n, st, obj)
+                    return self.call_contract(self.contracts[q], n, st, None if self.contracts[q].static else obj)
             raise Unsupported(f"method {key}", n)
         raise Unsupported("call form", n)
+
+    def construct_by_fields(self, rec: RecTy, n: ast.Call, st: State) -> V:
+        """`Cls(field=value, ...)` for a plain data record (ORM / pydantic model): a fresh reference whose listed fields hold the
+        given values (trusted: the constructor stores its keyword arguments; validators are not modelled)."""
+        if self.mode_spec or n.args:
+            raise Unsupported(f"{rec.name}(...) positional / in a clause", n)
+        vals = {kw.arg: self.coerce(self.expr(kw.value, st), rec.fields[kw.arg]) for kw in n.keywords if kw.arg in rec.fields}
+        if len(vals) != len(n.keywords):
+            raise Unsupported(f"{rec.name}(...) with an unknown field", n)
+        r = self.fresh(f"new.{rec.name}", rec)
+        self.assume_fresh(r, rec, st)
+        for f, v in vals.items():
+            if f in rec.mutable:
+                self.write_field(st, r, f, v)
+            else:
+                self.assume(st, z3.Select(self.heap_arr(st, rec, f), r.t) == v.t)
+        self.trusted_used.add(f"{rec.name}(field=value, ...) yields a new object holding exactly those field values")
+        return r
+
+    def assume_fresh(self, r: V, rec: RecTy, st: State) -> None:
+        for nm, v in list(st.env.items()):
+            if v.ty == rec:
+                self.assume(st, v.t != r.t)
+            elif isinstance(v.ty, SeqTy) and v.ty.elem == rec:
+                i = z3.Int(f"fi${self.site()}")
+                self.assume(st, z3.ForAll([i], self.seq_idx(v, i).t != r.t, patterns=[self.seq_idx(v, i).t]))
+            elif isinstance(v.ty, MapTy) and v.ty.val == rec:
+                k = z3.Const(f"fk${self.site()}", self.sort(v.ty.key))
+                self.assume(st, z3.ForAll([k], z3.Implies(self.pre.mapf(v.ty, "has")(v.t, k), self.pre.mapf(v.ty, "get")(v.t, k) != r.t),
+                                          patterns=[self.pre.mapf(v.ty, "get")(v.t, k)]))
 
     def construct(self, rec: RecTy, n: ast.Call, st: State) -> V:
         """`Cls(args)` for a class whose __init__ is under contract: a fresh reference, distinct from every object of that
